@@ -5,6 +5,8 @@
      POLL pick=<k> n=<len> raws=<r,…> = <picked original positions,…> used=<draws> observed=<draws>
      NI freq=<f> state=<c0> calls=<n> raws=<r,…> = <inject?:count after,…> used=<draws>
      FW freq=<f> calls=<n> raws=<r,…> = <0|1…> used=<draws>
+     RN maxs=<m,…> raws=<r,…> = <GetRandNumber results,…> next=<the next five results with max 1000003> used=<draws>
+     SS freq=<f> state=<s> raws=<r> = <GetInjectorState after SetInjectorState(s)> <inject?:count after one injection point>
      SCHED … (see `sched`)
 
    Every input line is answered by the line the model computes for the same inputs (everything right of ` = ` is
@@ -83,6 +85,28 @@ def fwLine (toks : List String) : Option String := do
   let r := fwAll freq calls 0 (parseRaws raws) []
   pure s!"FW freq={freq} calls={calls} raws={raws} = {String.ofList r.2} used={r.1}"
 
+def rnAll : List Nat → Nat → List Nat → List Nat → Nat × List Nat × List Nat
+  | [], rc, eng, acc => (rc, eng, acc.reverse)
+  | m :: ms, rc, eng, acc =>
+    let r := Extracted.FiberSched.GetRandNumber streamEngine.draw rc eng m
+    rnAll ms r.1 r.2.1 (r.2.2 :: acc)
+
+def rnLine (toks : List String) : Option String := do
+  let maxs ← kv toks "maxs"
+  let raws ← kv toks "raws"
+  let r := rnAll (parseRaws maxs) 0 (parseRaws raws) []
+  let n := rnAll [1000003, 1000003, 1000003, 1000003, 1000003] r.1 r.2.1 []
+  pure s!"RN maxs={maxs} raws={raws} = {joinNat r.2.2} next={joinNat n.2.2} used={r.1}"
+
+def ssLine (toks : List String) : Option String := do
+  let freq ← kvNat toks "freq"
+  let st ← kvNat toks "state"
+  let raws ← kv toks "raws"
+  let c := Extracted.FiberSched.Injector.SetState 0 st
+  let got := Extracted.FiberSched.Injector.GetState c
+  let r := Extracted.FiberSched.Injector.NeedInject streamEngine.draw 0 (parseRaws raws) c false freq
+  pure s!"SS freq={freq} state={st} raws={raws} = {got} {if r.2.2.2 then 1 else 0}:{r.2.2.1}"
+
 /-! scheduler-level scripts: the whole transducer `Sched.step` against the real scheduler.
 
     SCHED freq=<f> pick=<k> afail=<a> sleep=<s> tick=<t> state=<c0> raws=<r,…> script=<req;req;…> = <out;out;…> used=<n>
@@ -143,6 +167,8 @@ def answer (line : String) : String :=
     | some "POLL" => pollLine toks
     | some "NI" => niLine toks
     | some "FW" => fwLine toks
+    | some "RN" => rnLine toks
+    | some "SS" => ssLine toks
     | some "SCHED" => schedLine toks
     | _ => some line
   r.getD ("bad-line " ++ line)
